@@ -13,11 +13,11 @@ pub struct C02;
 /// 'buffers' population: configurations and histories aimed at the fixed-capacity buffers of the
 /// state machine - chords with more participants than the small queues hold, one-shots whose
 /// payload has several modifiers tapped again and again (the one-shot key buffer), many macros at
-/// once, many held layers, many undecided tap-holds - each followed by ordinary typing at the limit.
+/// once, many held layers, many undecided tap-holds, switch conditions nested to the evaluator's stack depth - each followed by ordinary typing at the limit.
 fn gen_buffers(r: &mut Rng, seed: u64) -> Case {
     const KEYS: &[&str] = &["a", "b", "c", "d", "e", "f", "g", "h", "i", "j", "k", "l", "m", "n", "o", "p", "q", "r", "s", "t", "u", "v", "w", "x", "y", "z", "1", "2", "3", "4", "5", "6", "7", "8", "9", "0"];
     let mut case = Case { prop: "C02".into(), seed, ..Default::default() };
-    let kind = *r.pick(&["wide-chord-v2", "wide-chord-v2", "wide-chord-v1", "oneshot-mods", "macros", "layers", "tapholds"]);
+    let kind = *r.pick(&["wide-chord-v2", "wide-chord-v2", "wide-chord-v1", "oneshot-mods", "macros", "layers", "tapholds", "switch-depth"]);
     case.set("population", "mapped");
     case.set("buffers", kind);
     case.set("mode", if r.chance(500) { "blocking" } else { "ticking" });
@@ -65,6 +65,52 @@ fn gen_buffers(r: &mut Rng, seed: u64) -> Case {
                 }
                 ops.push(Op::Gap(*r.pick(&[1u32, 50, 1500])));
             }
+        }
+        "switch-depth" => {
+            // boolean expressions nested up to and beyond what the evaluator's stack holds, the
+            // deep operand at any position among its siblings, and a key state under which no level
+            // short-circuits (and-siblings held, or-siblings not held): whatever the parser accepts
+            // must be evaluable
+            let held = ["a", "b", "c", "d", "e"];
+            let idle = ["f", "g", "h", "i", "j"];
+            fn node(r: &mut Rng, level: u32, depth: u32, and: bool, held: &[&str], idle: &[&str]) -> String {
+                let pool = if and { held } else { idle };
+                let nsib = r.range(0, 2) as usize;
+                let mut items: Vec<String> = (0..nsib).map(|_| (*r.pick(pool)).to_string()).collect();
+                if level < depth {
+                    let at = r.below(items.len() as u64 + 1) as usize;
+                    items.insert(at, node(r, level + 1, depth, !and, held, idle));
+                } else if items.is_empty() {
+                    items.push((*r.pick(pool)).to_string());
+                }
+                format!("({} {})", if and { "and" } else { "or" }, items.join(" "))
+            }
+            let depth = r.range(5, 11) as u32;
+            let start_and = r.chance(500);
+            let expr = node(r, 1, depth, start_and, &held, &idle);
+            case.cfg = format!("(defsrc a b c d e f g h i j z)\n(deflayer l0 a b c d e f g h i j (switch ({expr}) x break () y break))\n");
+            let cooperative = r.chance(700);
+            let mut down: Vec<&str> = vec![];
+            for k in held.iter().chain(idle.iter()) {
+                let want = if cooperative { held.contains(k) } else { r.chance(500) };
+                if want {
+                    ops.push(Op::Press(code(k)));
+                    ops.push(Op::Gap(r.range(1, 3) as u32));
+                    down.push(k);
+                }
+            }
+            ops.push(Op::Gap(5));
+            for _ in 0..r.range(1, 3) {
+                ops.push(Op::Press(code("z")));
+                ops.push(Op::Gap(10));
+                ops.push(Op::Release(code("z")));
+                ops.push(Op::Gap(5));
+            }
+            for k in down {
+                ops.push(Op::Release(code(k)));
+                ops.push(Op::Gap(1));
+            }
+            ops.push(Op::Gap(50));
         }
         "oneshot-mods" => {
             let payloads = ["C-S-A-lmet", "C-S-lalt", "RC-RS-RA-rmet", "C-S-A-M-rsft", "lsft"];
